@@ -169,7 +169,7 @@ pub fn run(tier: Tier, seed: u64) -> Report {
         tier,
         seed,
         "exploration",
-        "generated histories over 2-4 clients in which about a third of the id arguments are other clients' ids (latest, ancestors, base, snapshot version); the whole history is run, then each client's projection is re-run alone on a fresh backend of the same kind (foreign ids kept as concrete ids, own ids compared by chain position) and must get the same answers op by op; around every op the storage-API dump of every other client must not move. Non-trivial: the compared client quotes a foreign id that exists at that moment and another client wrote between two of its ops; distinct by the client's answer-kind sequence, backend, entry point.",
+        "generated histories over 2-4 clients in which about a third of the id arguments are other clients' ids (latest, ancestors, base, snapshot version); the whole history is run, then each client's projection is re-run alone on a fresh backend of the same kind (foreign ids kept as concrete ids, own ids compared by chain position) and must get the same answers op by op; around every op the storage-API dump of every other client must not move; plus the complete table of ids crossing roles (a client whose id is a version id of another client, uploading with that client's id, nil, its own id or that client's latest version as parent: nothing of it may show in what the other client is told). Non-trivial: the compared client quotes a foreign id that exists at that moment and another client wrote between two of its ops; distinct by the client's answer-kind sequence, backend, entry point.",
     );
     rep.assume("two runs are compared through chain positions for the client's own version ids and concretely for every other id");
     let r = engine::replay_dir::<HCase, _>("C09", "history", check);
@@ -193,6 +193,25 @@ pub fn run(tier: Tier, seed: u64) -> Report {
     let total = tier.pick(8000, 80_000);
     let r = engine::explore("C09", "history", seed, total, || hcase(&p, 20).prop_filter_map_nclients(), check);
     rep.absorb("random-histories", r);
+    if rep.failed() {
+        return rep;
+    }
+    // ids that cross roles: a client whose id *is* a version id of another client, naming that
+    // client's id (or one of its versions) as a parent
+    let mut cases = vec![];
+    for backend in [Backend::Mem, Backend::Sqlite] {
+        for via in [Via::Lib, Via::Http] {
+            for n in 1u8..=4 {
+                for which in 0..n {
+                    for x_parent in 0u8..4 {
+                        cases.push(XCase { backend, via, n, which, x_parent, more: (n + which + x_parent) % 2 == 0 });
+                    }
+                }
+            }
+        }
+    }
+    let r = engine::enumerate("C09", "cross-roles", cases, check_cross_roles);
+    rep.absorb("ids-crossing-roles", r);
     if rep.failed() {
         return rep;
     }
@@ -238,9 +257,103 @@ impl MinClients for proptest::strategy::BoxedStrategy<HCase> {
     }
 }
 
+/// Client B uploads `n` versions; a second client X whose client id is B's version number
+/// `which` then uploads with a parent chosen by `x_parent` (0: B's client id, 1: nil, 2: the same
+/// version id, 3: B's latest version) - every one of them a legal first parent of a new client.
+/// Nothing of that may show in what B is told afterwards.
+#[derive(Clone, Debug, serde::Serialize, serde::Deserialize, PartialEq, Eq, Hash)]
+pub struct XCase {
+    pub backend: Backend,
+    pub via: Via,
+    pub n: u8,
+    pub which: u8,
+    pub x_parent: u8,
+    /// X uploads a second version and a snapshot too
+    pub more: bool,
+}
+
+fn check_cross_roles(xc: &XCase, st: &mut Stats) -> CheckResult {
+    use crate::driver::{Driver, Outcome};
+    let v = |m: String| -> CheckResult { Err(Fail::Violation(format!("{xc:?}: {m}"))) };
+    let mut drv = Driver::new(xc.backend, xc.via, &case::Cfg::default()).map_err(|e| Fail::Violation(format!("opening storage: {e:#}")))?;
+    let b = case::client_uuid(9, 0);
+    let mut chain: Vec<(Uuid, Uuid, Vec<u8>)> = vec![];
+    let mut latest = Uuid::nil();
+    for i in 0..xc.n {
+        let data = vec![b'b', i, 7];
+        match drv.add_version(b, latest, &data) {
+            Outcome::Accepted { id, .. } => {
+                chain.push((latest, id, data));
+                latest = id;
+            }
+            o => return v(format!("set-up: B's upload {i} answered {}", o.short())),
+        }
+    }
+    let x = chain[xc.which as usize % chain.len()].1;
+    let xp = match xc.x_parent % 4 {
+        0 => b,
+        1 => Uuid::nil(),
+        2 => x,
+        _ => latest,
+    };
+    let mut xlatest = match drv.add_version(x, xp, b"x-one") {
+        Outcome::Accepted { id, .. } => id,
+        o => return v(format!("the first upload of client {x} (an unknown client; parent {xp}) answered {}", o.short())),
+    };
+    if xc.more {
+        match drv.add_version(x, xlatest, b"x-two") {
+            Outcome::Accepted { id, .. } => xlatest = id,
+            o => return v(format!("the second upload of client {x} answered {}", o.short())),
+        }
+        match drv.add_snapshot(x, xlatest, b"x-snap") {
+            Outcome::SnapshotOk => {}
+            o => return v(format!("a snapshot upload of client {x} answered {}", o.short())),
+        }
+    }
+    st.check();
+    // B: every version is served from its parent as before, the latest has no child, a stale
+    // parent conflicts, the next upload on the latest is accepted, no snapshot appeared
+    for (p, id, data) in &chain {
+        match drv.get_child(b, *p) {
+            Outcome::Found { id: gid, parent, data: d } if gid == *id && parent == *p && d.as_ref() == data.as_slice() => {}
+            o => return v(format!("after client {x} (named after B's version) uploaded with parent {xp}: B's GetChildVersion({p}) answered {}", o.short())),
+        }
+    }
+    match drv.get_child(b, latest) {
+        Outcome::NotFound => {}
+        o => return v(format!("after client {x} uploaded with parent {xp}: B's GetChildVersion(latest {latest}) answered {}", o.short())),
+    }
+    match drv.get_snapshot(b) {
+        Outcome::NoSnapshot => {}
+        o => return v(format!("after client {x} uploaded: B's GetSnapshot answered {}", o.short())),
+    }
+    if xc.n >= 2 {
+        match drv.add_version(b, chain[0].1, b"stale") {
+            Outcome::Conflict { latest: l } if l == latest => {}
+            o => return v(format!("after client {x} uploaded with parent {xp}: B's AddVersion on a stale parent answered {}", o.short())),
+        }
+    }
+    match drv.add_version(b, latest, b"b-next") {
+        Outcome::Accepted { .. } => {}
+        o => return v(format!("after client {x} (named after B's version {}) uploaded with parent {xp}: B's AddVersion on its latest version {latest} answered {}", xc.which, o.short())),
+    }
+    // and X sees its own chain only
+    match drv.get_child(x, xlatest) {
+        Outcome::NotFound => {}
+        o => return v(format!("client {x}: GetChildVersion(latest) answered {}", o.short())),
+    }
+    st.label(&format!("c09:cross-roles:{:?}/{:?}", xc.backend, xc.via));
+    st.nontrivial(xc);
+    Ok(())
+}
+
 pub fn replay(kind: &str, case_json: &Value, st: &mut Stats) -> CheckResult {
     let _ = case::N_CLASSES;
     match kind {
+        "cross-roles" => {
+            let xc: XCase = serde_json::from_value(case_json.clone()).map_err(|e| Fail::Inconclusive(format!("bad replay file: {e}")))?;
+            check_cross_roles(&xc, st)
+        }
         "two-clients" => crate::props::conc::two_clients_replay(case_json, st),
         "history" => {
             let hc: HCase = serde_json::from_value(case_json.clone()).map_err(|e| Fail::Inconclusive(format!("bad replay file: {e}")))?;
